@@ -746,11 +746,10 @@ Proof.
       { revert Hm. apply Forall2_impl. intros kv ab Hab. apply bind_ok in Hab as (a & Ha & Hab). apply bind_ok in Hab as (b & Hb & Hab).
         injection Hab as <-. cbn [fst snd]. destruct (IH _ _ _ _ _ _ Ha) as [m1 H1]. destruct (IH _ _ _ _ _ _ Hb) as [m2 H2].
         exists (Nat.max m1 m2). rewrite (has_type_le m1 _ _ _ _ _ (Nat.le_max_l _ _) H1), (has_type_le m2 _ _ _ _ _ (Nat.le_max_r _ _) H2). reflexivity. }
-      set (ht := fun m (_ : const_value * const_value) (ab : cval) => true).
       assert (Hc : exists m, forallb (fun ab => has_type m p tf (bin2str kt) (fst ab) && has_type m p tf vt (snd ab)) kvs = true).
       { clear -Hex. induction Hex as [|x ab l kvs [m Hm] _ [m' IH]]; [exists O; reflexivity|].
         exists (Nat.max m m'). cbn [forallb]. apply andb_true_iff in Hm as [H1 H2].
-        rewrite (has_type_le m _ _ _ _ _ (Nat.le_max_l _ _) H1), (has_type_le m _ _ _ _ _ (Nat.le_max_r _ _) H2). cbn [andb].
+        rewrite (has_type_le m _ _ _ _ _ (Nat.le_max_l _ _) H1), (has_type_le m _ _ _ _ _ (Nat.le_max_l _ _) H2). cbn [andb].
         revert IH. apply forallb_impl. intros y _ Hy. apply andb_true_iff in Hy as [H3 H4].
         rewrite (has_type_le m' _ _ _ _ _ (Nat.le_max_r _ _) H3), (has_type_le m' _ _ _ _ _ (Nat.le_max_r _ _) H4). reflexivity. }
       destruct Hc as [m Hc]. exists (S m). cbn [has_type]. rewrite E.
